@@ -11,7 +11,6 @@ package main
 
 import (
 	"bufio"
-	"bytes"
 	"context"
 	"encoding/json"
 	"errors"
@@ -23,6 +22,7 @@ import (
 	"github.com/paulmach/osm"
 	"github.com/paulmach/osm/osmpbf"
 	"verifharness/internal/pbfw"
+	"verifharness/internal/rdr"
 	"verifharness/internal/vio"
 )
 
@@ -260,7 +260,7 @@ func runCase(c Case, raw json.RawMessage) M {
 	cfg := M{"n": c.N, "blocks": blocks, "endkind": "eof", "hdr": hdr}
 	done := make(chan M, 1)
 	go func() {
-		s := osmpbf.New(context.Background(), bytes.NewReader(data), c.N)
+		s := osmpbf.New(context.Background(), rdr.For(data, c.Variant/2), c.N)
 		defer s.Close()
 		H := []M{}
 		if c.Variant%2 == 1 { // asking for the header first must not change what the scan reports
@@ -376,7 +376,7 @@ func runSkipResume(c SkipCase, raw json.RawMessage) M {
 		return k - 1
 	}
 	newScanner := func(d []byte) *osmpbf.Scanner {
-		s := osmpbf.New(context.Background(), bytes.NewReader(d), c.N)
+		s := osmpbf.New(context.Background(), rdr.For(d, c.Variant/2+len(d)), c.N)
 		s.SkipNodes, s.SkipWays, s.SkipRelations = c.Skip[0], c.Skip[1], c.Skip[2]
 		return s
 	}
